@@ -37,6 +37,17 @@ CLAIMED = {
     },
 }
 
+CLAIMED.update({
+    "C10": {
+        "text": "Exhaustive products over a 42-value JSON alphabet (every JSON type, int64/float boundaries, nested), 108 transform configurations (every transform type and parameter corner incl. negative/out-of-range regexp groups, malformed formats), chains of two, 7 patch types x 13 from-paths x 16 to-paths x 13 policies/merge options, combine patches, render/metadata cases: Resolve/Apply never panic, are deterministic and pure (source deep-equal before/after), optional-missing is a no-op and required-missing an error, results agree with an independent reference of each transform's documented meaning and the convert round-trip laws; reconciler-level scenarios show a composed resource whose from-XR patch, metadata or name generation failed is not written while its sibling is.",
+        "technique": "exhaustive small-scope input enumeration against an independent reference implementation (real Resolve/Apply/PTComposer code)",
+    },
+    "C14": {
+        "text": "Depth-bounded exhaustive search (state-hash pruning ranked by remaining depth) over sequences of package edits (source tags incl. rollbacks and a second tag of one digest, history limit, activation policy, pull policy), registry changes (re-tag, failure), revision health flips and real package-manager reconciles in which every API write is a fault/crash point; A1 (never two Active) after every write, A2 (current revision exists, highest number, Active unless manual) after each completed reconcile, A3 (names are a function of package and digest), A4 (GC only of the oldest non-current revision, only above limit+1, never with limit 0/nil) on every delete. Two initial states (fresh, two-revision history).",
+        "technique": "explicit-state search over event sequences with the real reconciler as transition function, plus fault/crash-point enumeration",
+    },
+})
+
 PENDING_REASON = "not claimed yet: the check for this property is still being built (design in DESIGN.md section 3); no technique switch is intended"
 
 
